@@ -83,6 +83,7 @@ package ast
 //@   ghost_return when fresh(*nl) :: parsley.GhostSpare(array(*nl)) = true
 //@   ensures  [wf] wfList(*nl) && len(*nl) >= old(len(*nl))
 //@   ensures  [empty-dedup;C01,C04] typeis[EmptyNode](node) ==> (len(*nl) == old(len(*nl)) + 1 || len(*nl) == old(len(*nl))) && (len(*nl) == old(len(*nl))) == (exists k int :: 0 <= k && k < old(len(*nl)) && same(old((*nl)[k]), node))
+//@   ensures  [empty-appended;C01,C04] typeis[EmptyNode](node) && len(*nl) == old(len(*nl)) + 1 ==> same((*nl)[len(*nl)-1], node)
 //@   ensures  [plain-append;C01,C04] !typeis[EmptyNode](node) && !typeis[NodeList](node) ==> len(*nl) == old(len(*nl)) + 1 && same((*nl)[len(*nl)-1], node)
 //@   ensures  [prefix;C07] forall k int :: 0 <= k && k < old(len(*nl)) ==> same((*nl)[k], old((*nl)[k]))
 //@   ensures  [arr;C07] (array(*nl) == old(array(*nl)) && offset(*nl) == old(offset(*nl)) && cap(*nl) == old(cap(*nl))) || fresh(*nl)
@@ -113,6 +114,7 @@ package ast
 //@   ensures  [len;C07] n1 != nil && n2 != nil && typeis[NodeList](n1) && parsley.ListArr(r) == parsley.ListArr(n1) ==> parsley.NAlts(r) >= parsley.NAlts(n1) && parsley.NAlts(r) + parsley.ListSpare(r) == parsley.NAlts(n1) + parsley.ListSpare(n1)
 //@   ensures  [perm-frame;C07] forall a int :: !freshid(a) ==> parsley.GhostSpare(a) == old(parsley.GhostSpare(a))
 //@   ensures  [alt-frame;C07] forall x parsley.Node, k int :: parsley.ListArr(x) == 0 || (!freshid(parsley.ListArr(x)) && !old(parsley.GhostSpare(parsley.ListArr(x)))) ==> same(parsley.Alt(x, k), old(parsley.Alt(x, k)))
+//@   ensures  [has-new;C01,C04] n1 != nil && n2 != nil && !typeis[NodeList](n2) ==> same(r.(NodeList)[len(r.(NodeList))-1], n2) || (typeis[EmptyNode](n2) && exists k int :: 0 <= k && k < len(r.(NodeList)) && same(r.(NodeList)[k], n2))
 //@   ensures  [nil1] n1 == nil ==> same(r, n2)
 //@   ensures  [nil2] n1 != nil && n2 == nil ==> same(r, n1)
 //@   ensures  [list] n1 != nil && n2 != nil ==> typeis[NodeList](r) && parsley.NodeOK(r)
